@@ -571,7 +571,7 @@ def load_corpus():
 
 
 SIZES = {  # random patterns, short decimals sampled (None = all), long decimals, midpoint doubles, lex programs
-    "quick": (2600, 2500, 500, 260, 500),
+    "quick": (2000, 2000, 400, 200, 400),
     "search": (5200, 5000, 1200, 600, 1200),
     "thorough": (20000, None, 6000, 3000, 6000),
 }
